@@ -76,8 +76,17 @@ func (t *Target) AccessDeniedTCP(c net.Conn) bool {
 	if len(t.accessRules) == 0 {
 		return false
 	}
+	return t.AccessDeniedAddr(c.RemoteAddr())
+}
+
+// AccessDeniedAddr checks rules on the target for the remote address
+// of a connection, e.g. the peer of a gRPC call.
+func (t *Target) AccessDeniedAddr(remote net.Addr) bool {
+	if len(t.accessRules) == 0 {
+		return false
+	}
 	// get remote address and validate assertion
-	addr, ok := c.RemoteAddr().(*net.TCPAddr)
+	addr, ok := remote.(*net.TCPAddr)
 	if !ok {
 		log.Printf("[ERROR] failed to assert remote connection address for %s", t.Service)
 		return true
